@@ -93,7 +93,8 @@ fn common_toks() -> Vec<Tok> {
         Tok::OtherConst { text: s("s = \"ab\""), name: "s" },
         Tok::NegConst { text: s("n = -5"), name: "n", value: -5 },
         Tok::Data { text: s("#d8 1, 0xc7"), elems: vec![(4, "1", 8, "00000001"), (7, "0xc7", 8, "11000111")] },
-        Tok::Data { text: s("#d16 0x8d2f"), elems: vec![(5, "0x8d2f", 16, "1000110100101111")] },
+        // (the second element is a call: its row quotes the call with its closing parenthesis)
+        Tok::Data { text: s("#d16 0x8d2f, le(0x2f8d)"), elems: vec![(5, "0x8d2f", 16, "1000110100101111"), (13, "le(0x2f8d)", 16, "1000110100101111")] },
         Tok::Data { text: s("#d3 0b101"), elems: vec![(4, "0b101", 3, "101")] },
         // an element that is a whole conditional expression: its row quotes all of it
         // ... and one that ends in a short slice: its row quotes the sliced expression too, not the `size part alone
